@@ -84,13 +84,14 @@ def run_check(prop, tier, seed, keep=False):
         for mc in cfg.get('mc', lambda t: [])(tier):
             res = tlc.model_check(mc['module'], mc.get('cfg'), workers=mc.get('workers', 16),
                                   timeout=mc.get('timeout', 1800), extra=mc.get('extra', ()),
+                                  count_actions=bool(mc.get('actions')),
                                   env=mc.get('env'))
             expect_fail = mc.get('expect_violation')
             mc_runs.append({'module': mc['module'], 'cfg': mc.get('cfg') or mc['module'],
                             'states_generated': res.get('states'), 'distinct': res.get('distinct'),
                             'depth': res.get('depth'), 'wall_s': round(res['wall'], 2),
                             'violated': res.get('violated'), 'expect_violation': expect_fail,
-                            'actions': {k: v[0] for k, v in res.get('actions', {}).items()}})
+                            'actions': res.get('actions', {})})
             if expect_fail:
                 # a regression test of the model itself: with the deviation switched on TLC must refute it
                 if res.get('violated') != expect_fail and not (expect_fail == 'any' and not res['ok']):
@@ -100,8 +101,7 @@ def run_check(prop, tier, seed, keep=False):
             if not res['ok']:
                 raise tlc.MachineryError('MC %s/%s failed (the design model itself is refuted or TLC broke)\n%s'
                                          % (mc['module'], mc.get('cfg'), res['out'][-6000:]))
-            dead = [a for a, (cnt, _) in res.get('actions', {}).items()
-                    if cnt == 0 and a not in mc.get('may_be_dead', ())]
+            dead = [a for a in mc.get('actions', ()) if res.get('actions', {}).get(a, 0) == 0]
             if dead:
                 raise tlc.MachineryError('MC %s: actions never taken (vacuity): %s' % (mc['module'], dead))
             states += res.get('distinct', 0)
